@@ -1,5 +1,6 @@
 import PsiModel.Reject
 import PsiProofs.C11
+import PsiProofs.Helper.C17_Rows
 /-!
 # C17 — artifact rejection forwards exactly the epochs under threshold, metadata aligned
 
@@ -211,6 +212,94 @@ theorem metadata_paired (mode : Mode) (th : Int) (ne nt : Nat) (values : List In
   · simp [hshape, selShape, ← hk, hlk]
   · exact keep_zip _ _ _
 
+theorem keep_length_eq {α β} : ∀ (l : List α) (l' : List β) (m : List Bool), l.length = l'.length →
+    (keep l m).length = (keep l' m).length
+  | [], [], m, _ => by cases m <;> simp [keep]
+  | [], _ :: _, _, h => by simp at h
+  | _ :: _, [], _, h => by simp at h
+  | x :: xs, y :: ys, [], _ => by simp [keep]
+  | x :: xs, y :: ys, true :: bs, h => by simp [keep, keep_length_eq xs ys bs (by simpa using h)]
+  | x :: xs, y :: ys, false :: bs, h => by simp [keep, keep_length_eq xs ys bs (by simpa using h)]
+
+/-- **The mask selects the same rows for data and metadata — for every mask.** For an annotated `(ne, 1, nt)` batch
+(`data` = the index-valued array the model's `step` builds, `values` the batch's samples) and EVERY boolean mask of
+length `ne`, `batch[mask]` succeeds and: the data rows of the result, read back through `values`, are exactly
+`keep epochs mask` (the epochs at the mask's `True` positions, in order); its metadata are `keep ms mask` (the entries
+at the same positions); the two have the same length, which is the length of the result's epoch axis; `s0`, `fs`,
+channel label untouched.  Data placement comes from the NumPy layer through `getitem_data` (the annotation fix-ups
+never touch data), metadata from C11's `epoch_select`. -/
+theorem mask_selects_same_rows (ne nt : Nat) (values : List Int) (s0 : Int) (fs : Rat) (c : Label) (ms : List Md)
+    (hv : values.length = ne * nt) (hm : ms.length = ne) (mask : List Bool) (hlen : mask.length = ne) :
+    ∃ r, getitem ⟨[ne, 1, nt], List.range (prod [ne, 1, nt]), s0, fs, .many [c], .many ms⟩ (.one (.barr mask)) =
+        .ok (.arr r) ∧
+      rows nt (r.shape.getD 0 0) (r.data.map fun i => values.getD i 0) = keep (rows nt ne values) mask ∧
+      r.metadata = .many (keep ms mask) ∧
+      (keep ms mask).length = (keep (rows nt ne values) mask).length ∧
+      r.shape = [(keep ms mask).length, 1, nt] ∧ r.s0 = s0 ∧ r.fs = fs ∧ r.channel = .many [c] := by
+  have hsel : itemSel (.barr mask) ne = .ok (.fancy (trueIdx 0 mask)) := by
+    simp [itemSel, maskPositions, hlen, Except.map]
+  obtain ⟨r, hr, hmeta, hshape, _, hs0, hfs, hch⟩ :=
+    epoch_select ne 1 nt (List.range (prod [ne, 1, nt])) s0 fs [c] ms hm (.barr mask) trivial _ hsel
+  have hk : listTake ms (trueIdx 0 mask) = keep ms mask := by
+    rw [mask_labels ms mask (by omega)]
+    exact filterMap_zip_eq_keep ms mask (by omega)
+  have hlk : (listTake ms (trueIdx 0 mask)).length = (trueIdx 0 mask).length :=
+    listTake_length ms _ (by intro p hp; have := trueIdx_lt mask 0 p hp; omega)
+  obtain ⟨sel, hnp, hdata, _⟩ := getitem_data hr
+  have hoff := npGetitem_mask_3d ne 1 nt mask hlen
+  simp only [Index.items] at hnp
+  rw [hnp] at hoff
+  simp only [Except.map, Except.ok.injEq] at hoff
+  rw [hoff, mask_offsets ne nt mask hlen] at hdata
+  refine ⟨r, hr, ?_, ?_, ?_, ?_, hs0, hfs, hch⟩
+  · rw [hshape, hdata, keep_rows nt ne values hv mask hlen]
+    simp only [selShape, List.cons_append, List.nil_append, List.getD_cons_zero, List.map_flatMap, List.map_map,
+      Function.comp_def]
+    exact rows_flatMap nt _ (trueIdx 0 mask) (by intro x _; simp)
+  · simp [hmeta, selMeta, hk]
+  · exact keep_length_eq _ _ _ (by rw [hm, rows_count])
+  · simp [hshape, selShape, ← hk, hlk]
+
+
+/-- **Forwarded data rows of annotated input.** For an annotated `(ne, 1, nt)` batch, `nt ≥ 1`: `step` succeeds, the
+status mask is the per-epoch verdict, the epochs handed to the target are exactly the accepted epochs in their original
+order (`filter accepted`; target not called when there is none), the forwarded metadata are the entries of the accepted
+epochs, and zipping forwarded metadata with forwarded epochs gives the accepted (metadata, epoch) pairs of the batch:
+every forwarded epoch is positionally paired with its own metadata entry. -/
+theorem forwarded_rows_annotated (mode : Mode) (th : Int) (ne nt : Nat) (values : List Int) (s0 : Int) (fs : Rat)
+    (c : Label) (ms : List Md) (hnt : 0 < nt) (hv : values.length = ne * nt) (hm : ms.length = ne) :
+    ∃ o, step mode th (annotBatch ne nt values s0 fs c ms) = .ok o ∧
+      o.mask = (rows nt ne values).map (accepted mode th) ∧
+      o.forwarded = (if ((rows nt ne values).filter (accepted mode th)).isEmpty then none
+                     else some ((rows nt ne values).filter (accepted mode th))) ∧
+      o.metadata = some (.many (keep ms o.mask)) ∧
+      (keep ms o.mask).zip ((rows nt ne values).filter (accepted mode th)) = keep (ms.zip (rows nt ne values)) o.mask ∧
+      (keep ms o.mask).length = ((rows nt ne values).filter (accepted mode th)).length := by
+  have hne : ∀ e ∈ rows nt ne values, e ≠ [] := by
+    intro e he h0
+    have := rows_length nt ne values hv e he
+    simp [h0] at this; omega
+  obtain ⟨mask, hmk⟩ := mapM_accept_some mode th _ hne
+  have hmask := mask_eq_map mode th _ _ hmk
+  have hlen : mask.length = ne := by rw [hmask]; simp [rows_count]
+  have h0 : ¬ (nt = 0) := by omega
+  obtain ⟨r, hr, hrows, hmeta, hlk, hshape, _, _, _⟩ :=
+    mask_selects_same_rows ne nt values s0 fs c ms hv hm mask hlen
+  have hfilt : keep (rows nt ne values) mask = (rows nt ne values).filter (accepted mode th) := by
+    rw [hmask]; exact keep_map_eq_filter _ _
+  simp only [step, annotBatch, validate]
+  simp only [shapeM2, List.length_cons, List.length_nil, List.reverse_cons, List.reverse_nil, List.nil_append,
+    List.cons_append, List.getD_cons_succ, List.getD_cons_zero, Nat.reduceAdd, Nat.reduceEqDiff, ↓reduceIte,
+    decide_true, Bool.and_self, Bool.not_true, Bool.false_eq_true, Nat.le_refl, hmk, h0, and_false, hr]
+  refine ⟨⟨mask, (if r.shape.getD 0 0 = 0 then none else
+      some (rows nt (r.shape.getD 0 0) (r.data.map fun i => values.getD i 0))), some r.metadata, r.shape, r.s0, r.fs,
+      r.channel⟩, by simp, hmask, ?_, by simp [hmeta], ?_, ?_⟩
+  · rw [hshape] at hrows
+    simp only [List.getD_cons_zero, hlk, hfilt] at hrows
+    simp only [hshape, List.getD_cons_zero, hlk, hfilt, hrows, List.isEmpty_iff_length_eq_zero]
+  · simp only [← hfilt]; exact keep_zip _ _ _
+  · simp only [← hfilt]; exact hlk
+
 /-! ### Non-vacuity -/
 
 example : accepted .absValue 4 [1, -3, 2] = true ∧ accepted .absValue 4 [1, -4, 2] = false ∧
@@ -219,5 +308,10 @@ example : criterion .absValue [1, -4, 2] = some 4 := by decide
 example : (plainBatch 2 3 [1, -3, 2, 1, -4, 2]).values.length = 2 * 3 := rfl
 example : ∀ e ∈ rows 2 2 [4, 0, -5, 1], accepted .absValue 4 e = false := by decide
 example : (({ annotated := false, shape := [2, 2, 3], values := [] } : Batch).shape.getD 1 0) ≠ 1 := by decide
+
+/-- an annotated batch of two epochs of three samples meeting the hypotheses of `forwarded_rows_annotated` /
+`mask_selects_same_rows` (mask `[true, false]`). -/
+example : (0 < 3) ∧ ([1, -3, 2, 1, -4, 2] : List Int).length = 2 * 3 ∧ ([7, 8] : List Md).length = 2 ∧
+    ([true, false] : List Bool).length = 2 := by decide
 
 end Psi.Reject
